@@ -35,6 +35,15 @@ var retrySolvers = []solverSpec{
 var quickSolvers = []solverSpec{
 	{"z3", func(f string, t int) []string { return []string{"z3", fmt.Sprintf("-T:%d", t), f} }},
 	{"z3-new", func(f string, t int) []string { return []string{"z3-new", fmt.Sprintf("-T:%d", t), f} }},
+	{"z3-new/noauto", func(f string, t int) []string {
+		return []string{"z3-new", fmt.Sprintf("-T:%d", t), "smt.auto_config=false", f}
+	}},
+	{"z3-new/arith2", func(f string, t int) []string {
+		return []string{"z3-new", fmt.Sprintf("-T:%d", t), "smt.arith.solver=2", f}
+	}},
+	{"cvc5", func(f string, t int) []string {
+		return []string{"cvc5", "--lang=smt2", fmt.Sprintf("--tlimit=%d", t*1000), "--produce-models", f}
+	}},
 }
 
 var solvers = []solverSpec{
@@ -279,7 +288,7 @@ func (eng *Engine) solveAll(outDir string, timeoutS int, workers int) {
 			}
 			r := solveResult{res: "unknown"}
 			if !o.Canary {
-				r = raceSolversWith(quickSolvers, o.File, 2, nil)
+				r = raceSolversWith(quickSolvers, o.File, 3, nil)
 			}
 			if r.res != "unsat" && r.res != "sat" {
 				t1 := r.secs
